@@ -8,6 +8,8 @@
 (*       is recorded as "NC:<field>@SHAPE@EXC" (a non-conformance, never a violation by itself).                *)
 (* Total acceptance: nothing blocks.  SHAPE (computed here, from the inputs) is ONECHAR when some input has      *)
 (* exactly one non-separator character, else OTHER; EXC names the first unexpected exception among the fields the law reads.      *)
+(* For the cases on folders as spelled (kinds S, Y) SHAPE is the stratum of the spelling (Paths!SpellShape of   *)
+(* the folder / of the two roots), or Paths!HeldTag for the held input class.                                    *)
 (* At most Cap witnesses are kept per (clause string, convention) in one TLC run; the rest are counted.          *)
 EXTENDS Paths, Json, IOUtils, TLC
 VARIABLES tid, l
@@ -22,18 +24,23 @@ CfgOf(j) == [sep |-> j.sep, cs |-> j.cs = 1, win |-> j.win = 1]
 Conv(t)  == <<Traces[t][1].c, Traces[t][1].c2>>
 
 NonSepCount(s) == Cardinality({i \in 1..Len(s) : ~IsSepCh(s[i])})
-Shape == IF \E s \in {Ev.p, Ev.q, Ev.r} : NonSepCount(s) = 1 THEN "ONECHAR" ELSE "OTHER"
+Shape ==
+  CASE Ev.kind = "S" -> SpellShape(vc, vp)
+    [] Ev.kind = "Y" -> SpellShape(vc, vp) \o "+" \o SpellShape(vc2, vr)
+    [] OTHER -> IF \E s \in {Ev.p, Ev.q, Ev.r} : NonSepCount(s) = 1 THEN "ONECHAR" ELSE "OTHER"
 \* the first unexpected exception among the fields `reads` of the code's observation
 ExcTag(reads) ==
   LET codes == {Ev.o[f][2] : f \in {g \in DOMAIN Ev.o \cap reads : Ev.o[g][1] = 3}}
   IN IF 1 \in codes THEN "IndexError" ELSE IF 2 \in codes THEN "ValueError" ELSE IF 9 \in codes THEN "OtherError" ELSE "none"
 
-Viol(clause, reads) ==
-  LET full == clause \o "@" \o Shape \o "@" \o ExcTag(reads)
+ViolAs(clause, reads, shape) ==
+  LET full == clause \o "@" \o shape \o "@" \o ExcTag(reads)
       cur  == TLCGet(1)
       same == {v \in cur : v[3] = full /\ Conv(v[1]) = Conv(tid)}
   IN IF Cardinality(same) < Cap THEN TLCSet(1, cur \cup {<<tid, l, full>>}) ELSE TLCSet(3, TLCGet(3) + 1)
+Viol(clause, reads) == ViolAs(clause, reads, Shape)
 Check(cond, clause, reads) == IF cond THEN TRUE ELSE Viol(clause, reads)
+CheckAs(cond, clause, reads, shape) == IF cond THEN TRUE ELSE ViolAs(clause, reads, shape)
 
 \* (b): field-by-field comparison with the specification's own observation
 Conform(o, spec) ==
@@ -65,8 +72,17 @@ JT == /\ \A law \in LawsT : Check(HoldsT(law, vc, vp, vq, vr, Ev.o), law, Reads(
       /\ Conform(Ev.o, ObsT(vc, vp, vq, vr))
 JX == /\ \A law \in LawsX, side \in {0, 1} : Check(HoldsX(law, side, vc, vc2, vp, vr, vq, Ev.o), law, Reads(law, side))
       /\ Conform(Ev.o, ObsX(vc, vc2, vp, vr, vq))
+\* folders as spelled: vp (and vr) were handed to the helpers as they are
+JS == /\ \A law \in LawsS : CheckAs(HoldsS(law, vc, vp, vq, vr, Ev.o), law, ReadsS(law),
+                                   IF HeldS(law, vp, vq, vr) THEN HeldTag ELSE Shape)
+      /\ Check(K(Ev.o.jf) # 1 \/ Ev.o.sib = Str(V(Ev.o.jf) \o vq), "Bridge", {})   \* the sibling really is join(folder) + q
+      /\ Conform(Ev.o, ObsS(vc, vp, vq, vr))
+JY == /\ \A law \in LawsY, side \in {0, 1} : Check(HoldsY(law, side, vc, vc2, vp, vr, vq, Ev.o), law, Reads(law, side))
+      /\ Check(Ev.o.A = Str(vp) /\ Ev.o.B = Str(vr), "Bridge", {})                 \* the roots really are the spellings
+      /\ Conform(Ev.o, ObsY(vc, vc2, vp, vr, vq))
 Judge ==
   /\ CASE Ev.kind = "U" -> JU [] Ev.kind = "B" -> JB [] Ev.kind = "T" -> JT [] Ev.kind = "X" -> JX
+        [] Ev.kind = "S" -> JS [] Ev.kind = "Y" -> JY
   /\ IF l = Len(Tr) THEN TLCSet(2, TLCGet(2) + 1) ELSE TRUE
 
 ASSUME TLCSet(1, {}) /\ TLCSet(2, 0) /\ TLCSet(3, 0)
